@@ -211,3 +211,70 @@ func Verif_C06_Arith_established() {
 	verifAssert("expiry-closes", conn.closed && pl.nClose == 1)
 	verifCover("established-expiry")
 }
+
+// the hold time is negotiated afresh for every session: nothing of an earlier session on the same
+// (reused, outbound) FSM object leaks into the next one
+func Verif_C06_Arith_renegotiated_per_session() { c06SecondSession() }
+
+// C14 half of the same scenario: the OPEN of the second session still carries the configured hold time
+func Verif_C14_Arith_open_on_second_session() { c06SecondSession() }
+
+func c06SecondSession() {
+	verifNote("real peer, local hold time symbolic (>= 3): first outbound session with remote hold time r1 (symbolic, 0 or >= 3) reaches Established and is ended by FIN, by a received Cease, or already in OpenConfirm by FIN; the same outbound FSM re-dials after its idle-hold timer; second session with remote hold time r2 (symbolic, independent of r1): the OPEN sent on the second connection is byte-identical to the first one (configured hold time), the hold time in force is min(local, r2) and the timers are armed accordingly")
+	e := newPenv(false)
+	e.dial.outcomes = []dialOutcome{dialOK, dialOK, dialPendingThenFail}
+	r1, r2 := verifU16("r1"), verifU16("r2")
+	verifAssume(verifAnd(verifOr(r1 == 0, r1 >= 3), verifOr(r2 == 0, r2 >= 3)))
+	e.p.start()
+	verifQuiesce()
+	c1 := e.conns[out]
+	if c1 == nil {
+		verifAssert("first-dial", false)
+		return
+	}
+	c1.send(openMessageType, mkOpenBody(e.cfg.remoteAS, r1, e.remoteID))
+	verifQuiesce()
+	endKind := verifChoose("first-session-ends", 3)
+	if endKind != 2 {
+		c1.send(keepAliveMessageType, nil)
+		verifQuiesce()
+		verifAssert("first-session-established", e.pl.nEstab == 1)
+	}
+	f := e.p.fsms[out]
+	if f == nil {
+		verifAssert("outbound-fsm", false)
+		return
+	}
+	c06CheckArmed(f, c06H(e.cfg.holdSec, r1))
+	if endKind == 1 {
+		c1.send(notificationMessageType, []byte{NOTIF_CODE_CEASE, 0})
+	} else {
+		c1.remoteClose(1)
+	}
+	verifQuiesce()
+	verifAssert("first-connection-closed", c1.closed)
+	if e.p.fsms[out] != f || !verifFireTimer(f.idleHoldTimer) {
+		verifAssert("same-outbound-fsm-waits-for-idle-hold", false)
+		return
+	}
+	verifQuiesce()
+	c2 := e.conns[out]
+	verifAssert("second-connection", c2 != nil && c2 != c1)
+	if c2 == nil || c2 == c1 || len(c1.writes) == 0 || len(c2.writes) == 0 {
+		return
+	}
+	o1, o2 := c1.writes[0], c2.writes[0]
+	verifAssert("second-open-carries-configured-hold-time", len(o2) >= 29 && uint16(o2[22])<<8|uint16(o2[23]) == e.cfg.holdSec)
+	verifAssertBytesEq("second-open-identical-to-first", o2, o1)
+	c2.send(openMessageType, mkOpenBody(e.cfg.remoteAS, r2, e.remoteID))
+	verifQuiesce()
+	verifAssert("second-open-exchange-done", e.p.fsmState[out] == openConfirmState)
+	c06CheckArmed(f, c06H(e.cfg.holdSec, r2))
+	c2.send(keepAliveMessageType, nil)
+	verifQuiesce()
+	verifAssert("second-session-established", e.pl.nEstab == 1+verifIteInt(endKind != 2, 1, 0))
+	c06CheckArmed(f, c06H(e.cfg.holdSec, r2))
+	verifCoverIf("second-hold-larger", verifAnd(r1 != 0, r2 > r1))
+	verifCoverIf("first-zero-second-not", verifAnd(r1 == 0, r2 != 0))
+	e.p.stop()
+}
